@@ -30,6 +30,12 @@ def pair(d, collide):
         s1 = {idk: "http://x.test/s.json", "definitions": {"d": {"maximum": 3}}, "items": {"$ref": "#/definitions/d"}}
         s2 = {idk: "http://x.test/s.json", "definitions": {"d": {"minimum": 7}}, "items": {"$ref": "#/definitions/d"}}
         return (s1, {}, None), (s2, {}, None)
+    if collide == "metaschema-id":
+        mid = {3: "http://json-schema.org/draft-03/schema#", 4: "http://json-schema.org/draft-04/schema#",
+               6: "http://json-schema.org/draft-06/schema#", 7: "http://json-schema.org/draft-07/schema#"}[d]
+        s1 = {idk: mid, "definitions": {"nonNegativeInteger": {"maximum": 3}}, "items": {"$ref": "#/definitions/nonNegativeInteger"}}
+        s2 = {idk: mid, "definitions": {"nonNegativeInteger": {"minimum": 7}}, "items": {"$ref": "#/definitions/nonNegativeInteger"}}
+        return (s1, {}, None), (s2, {}, None)
     if collide == "remote":
         s = {"items": {"$ref": REMOTE + "#/definitions/d"}}
         return (s, {REMOTE: {"definitions": {"d": {"maximum": 3}}}}, None), (dict(s), {REMOTE: {"definitions": {"d": {"minimum": 7}}}}, None)
@@ -181,10 +187,10 @@ def cube(d, collide, steps, prefix, third=False, same=False, built=False):
     return spec
 
 
-COLLIDE = ["ref", "remote", "relative", "format", "format-str", "pattern"]
+COLLIDE = ["ref", "remote", "relative", "format", "format-str", "pattern", "metaschema-id"]
 
 
-QUICK = {7: ["ref", "format-str"], 4: ["relative", "pattern"]}
+QUICK = {7: ["ref", "format-str", "metaschema-id"], 4: ["relative", "pattern"]}
 
 
 def conditions(tier, seed, active):
